@@ -97,6 +97,36 @@ CARRIERS = [
 ]
 
 
+# runtime errors (value 'ERROR') raised in positions that are not calls
+RUNTIME_CARRIERS = [
+    ("runtime:index", "[1][5]"), ("runtime:map-key", "<<<1 => 2>>>[3]"),
+    ("runtime:undefined-name", "undefined_zz_q"),
+    ("runtime:non-boolean-condition", "if 1 then 2"),
+    ("runtime:non-boolean-and", "1 and TRUE"),
+    ("runtime:member-of-int", "def five = 5; five->a"),
+    ("runtime:iterate-int", "for x in 5 do x end"),
+    ("runtime:comprehension-over-int", "[x for x in 5]"),
+    ("runtime:destructure-int", "def [a, b] = 5"),
+    ("runtime:spread-int", "def q = 5; [...q]"),
+    ("runtime:assign-undefined", "undefined_zz_q = 1"),
+    ("runtime:stack-exhausted-in-set-literal",
+     "def c = []; append(c, c); <<c>>"),
+    ("runtime:stack-exhausted-in-map-literal",
+     "def c = []; append(c, c); <<<identity(c) => 1>>>"),
+    ("runtime:stack-exhausted-in-membership",
+     "def c = []; append(c, c); c in <<1>>"),
+    ("runtime:stack-exhausted-in-comprehension",
+     "def c = []; append(c, c); <<x for x in [c]>>"),
+    ("runtime:stack-exhausted-in-index-assignment",
+     "def c = []; append(c, c); def m = <<<>>>; m[c] = 1"),
+    ("runtime:stack-exhausted-in-map-lookup",
+     "def c = []; append(c, c); <<<1 => 2>>>[c]"),
+    ("runtime:endless-recursion", "def f(n) f(n + 1); f(0)"),
+    ("runtime:stack-exhausted-inside-function",
+     "def c = []; append(c, c); def g() <<c>>; g()"),
+]
+
+
 def carrier_prop(name, carrier, lit):
     from vf import cklrun
     from vf.model import values as mv
@@ -137,12 +167,18 @@ def part_carriers(part):
             part.cls("carrier:" + name, carrier if lit == "7" else None)
             part.collect(carrier_prop(name, carrier, lit),
                          {"kind": "carrier", "name": name, "lit": lit})
+    for name, carrier in RUNTIME_CARRIERS:
+        part.count()
+        part.distinct()
+        part.cls("carrier:" + name.split(":")[0], carrier)
+        part.collect(carrier_prop(name, carrier, "'ERROR'"),
+                     {"kind": "carrier", "name": name, "lit": "'ERROR'"})
     part.exhaustive = True
 
 
 def prop(case):
     if case.get("kind") == "carrier":
-        carrier = dict(CARRIERS)[case["name"]]
+        carrier = dict(CARRIERS + RUNTIME_CARRIERS)[case["name"]]
         return carrier_prop(case["name"], carrier, case["lit"])
     import ast as _ast
     stmts = _ast.literal_eval(case["ast"])
